@@ -246,7 +246,7 @@ def finding_key(msg, trace):
     return crash + ("two-checkpoints-in-one-millisecond|" if same else "distinct-milliseconds|") + "C20"
 
 
-SCALE_MS = 40      # native replay: one model millisecond of clock advance = 40 ms of sleep; a ttl of t = 40 t + 20 ms
+SCALE_MS = 200     # native replay: one model millisecond of clock advance = 200 ms of sleep; a ttl of t = 200 t + 100 ms (margin for scheduling jitter)
 
 
 def reference(trace):
